@@ -77,7 +77,7 @@ CHECKS = [
              "sum by C03); noise floor 1e-11/L^2."},
     {"id": "C07", "engine": "history-monitor", "design_ref": "DESIGN.md §3 C07, §2.2",
      "technique": "property-based testing over generated run histories (Hypothesis draws configuration, seed, budget) with a per-event invariant monitor on the real mediator loop",
-     "text": 'Every commit of instrumented runs (17 shipped configurations verbatim + parameter-edited variants + generated families G4 (N hard-disk dipoles, 2-D rotated velocities) and G5 (cell system in a non-cubic box), 160 histories x 300-1500 events quick, ~1000 x up to 20000 thorough): monotone event time, trajectory continuity of every unit at the event time modulo the box, resting units bit-identical, exactly one moving chain at the configured speed, positions in the box, identities/charges unchanged.',
+     "text": 'Every commit of instrumented runs (17 shipped configurations verbatim + parameter-edited variants + generated families G4 (N hard-disk dipoles, 2-D rotated velocities), G5 (cell system in a non-cubic box) and G6 (hard-disk dipoles with point masses in cells, velocity components of either sign), 160 histories x 300-1500 events quick, ~1000 x up to 20000 thorough): monotone event time, trajectory continuity of every unit at the event time modulo the box, resting units bit-identical, exactly one moving chain at the configured speed, positions in the box, identities/charges unchanged.',
      "note": "Trusted: vlib/monitor.py (harness-side recomputation of trajectories with the code's own Time subtraction), instance-attribute wrappers of vlib/engine.py, private reads Mediator._state_handler/_scheduler/_activator/_input_output_handler and Activator._taggers/_internal_states. Since the repair of the nearby-cells ordering (fix 55b0c76) runs with cell systems are a pure function of the drawn case; should Hypothesis still report a non-reproducible failure the first observed violation is reported with a note. Generated configurations edit parameters of shipped files only; hard_disk_dipoles(.ini|_cells.ini) need MDAnalysis and are not runnable here."},
     {"id": "C08", "engine": "history-monitor", "design_ref": "DESIGN.md §3 C08, §2.2",
      "technique": "property-based testing over generated run histories (Hypothesis draws configuration, seed, budget) with a per-event invariant monitor on the real mediator loop",
@@ -89,7 +89,7 @@ CHECKS = [
      "note": "Trusted: vlib/monitor.py (harness-side recomputation of trajectories with the code's own Time subtraction), instance-attribute wrappers of vlib/engine.py, private reads Mediator._state_handler/_scheduler/_activator/_input_output_handler and Activator._taggers/_internal_states. Since the repair of the nearby-cells ordering (fix 55b0c76) runs with cell systems are a pure function of the drawn case; should Hypothesis still report a non-reproducible failure the first observed violation is reported with a note. Generated configurations edit parameters of shipped files only; hard_disk_dipoles(.ini|_cells.ini) need MDAnalysis and are not runnable here."},
     {"id": "C11", "engine": "history-monitor", "design_ref": "DESIGN.md §3 C11, §2.2",
      "technique": "property-based testing over generated run histories (Hypothesis draws configuration, seed, budget) with a per-event invariant monitor on the real mediator loop",
-     "text": 'On all cell configurations (shipped + edited grids/caps/N, clustered initial configurations with several units per cell, generated family G5 in a non-cubic box): right after every activator update and before every get the occupancy view (occupants per cell, surplus, active cell) is compared with the true positions; at every commit the active unit advanced to the event time must lie in its recorded cell, after a cell-boundary event in the neighbour in the direction of motion.',
+     "text": 'On all cell configurations (shipped + edited grids/caps/N, clustered initial configurations with several units per cell, generated families G5 in a non-cubic box and G6 with downward wall crossings): right after every activator update and before every get the occupancy view (occupants per cell, surplus, active cell) is compared with the true positions; at every commit the active unit advanced to the event time must lie in its recorded cell, after a cell-boundary event in the neighbour in the direction of motion.',
      "note": "Trusted: vlib/monitor.py (harness-side recomputation of trajectories with the code's own Time subtraction), instance-attribute wrappers of vlib/engine.py, private reads Mediator._state_handler/_scheduler/_activator/_input_output_handler and Activator._taggers/_internal_states. Since the repair of the nearby-cells ordering (fix 55b0c76) runs with cell systems are a pure function of the drawn case; should Hypothesis still report a non-reproducible failure the first observed violation is reported with a note. Generated configurations edit parameters of shipped files only; hard_disk_dipoles(.ini|_cells.ini) need MDAnalysis and are not runnable here."},
     {"id": "C12", "engine": "history-monitor", "design_ref": "DESIGN.md §3 C12, §2.2",
      "technique": "property-based testing over generated run histories (Hypothesis draws configuration, seed, budget) with a per-event invariant monitor on the real mediator loop",
@@ -127,7 +127,9 @@ CHECKS = [
              "N up to 6) a dumping tagger is wired in as in the shipped dump example; subprocesses execute the real run.main / resume.main "
              "under class-level recorders. Every resumed run must reproduce the original's suffix (handler class, candidate time bits, "
              "global-state digest, written samples) for up to 400 records, and the run with dumps must equal the run without, minus "
-             "the dumping events.",
+             "the dumping events. One recorded known finding (known_findings.json, DESIGN.md 8.2): two candidates at bit-identical "
+             "times are ordered by heap layout, so a pending dumping event can change which is returned first; only a deviation "
+             "whose first differing records are two different handlers at the identical time is classified as that finding.",
      "note": "Trusted: the recorders (class-level patches of non-Initializer classes only; private read Scheduler._last_returned_event), "
              "dill, blake2 digests of float.hex state. Quick tier: 36 cases x 3-6 dumps; resumed runs are compared for at most 400 records."},
     {"id": "C20", "engine": "hypothesis-runner", "design_ref": "DESIGN.md §3 C20",
